@@ -16,6 +16,7 @@ Hypotheses of the block-processor theorems, all of them about parameters:
   * the checksum `P.h` is arbitrary; the files carry arbitrary flag words and contents of any size.
 -/
 import Sqfs.Proofs.BPFinal
+import Sqfs.Proofs.BPSpecPack
 import Sqfs.Props.C09
 import Sqfs.Model.BuildEnv
 namespace Sqfs.C02
@@ -72,6 +73,43 @@ theorem finish_writes_everything (P : Params) (hc : CodecOk P.codec) (hB0 : 0 < 
     subst h
     exact ⟨hf.ioQueue, hf.pool, hf.backlog, hf.deq, hf.fragBlock⟩
   · rw [hr] at h; cases h
+
+/-! ### towards `specPack` (DESIGN.md Appendix B)
+
+Full statement, **not proved**:
+
+    theorem run_eq_specPack (P) (hc : CodecOk P.codec) (hpos : ∀ x z, P.codec.cmp x = some z → 0 < z.length)
+        (hB0 : 0 < P.B) (hB : P.B < 2 ^ 24) (mb) (files) (hfl : ∀ f ∈ files, f.flags &&& blkUserSettable = f.flags) :
+        ∃ out, run (serial P) mb files = .ok out ∧
+          let o := Pack.specPack (toPackParams P) (files.map fun f => ⟨Pack.Flags.ofNat f.flags, f.data⟩)
+          out.file = P.pre ++ o.area ∧
+          out.frags = o.frags.map (fun e => (e.start, (Pack.Word.stored e.size e.raw).toNat)) ∧
+          out.files = o.files.map (fun r => ⟨r.size, r.words.map Pack.Word.toNat, r.start,
+                                            (r.frag.map (·.1)).getD 0xFFFFFFFF, (r.frag.map (·.2)).getD 0xFFFFFFFF,
+                                            r.sparse, r.extended⟩)
+
+`run_eq_spec` reduces it to `packRef = specPack`, a statement about two pure functions.  What is missing:
+ (1) the closed form of the front end: `feFile` (the loop of `append`) produces `Pack.fullBlocks`/`Pack.tailOf` with the
+     `FIRST`/`LAST`/sentinel/`IS_FRAGMENT` pattern of Appendix B;
+ (2) the writer pass against `Pack.placeBlocks`: `Sqfs.C08.bw_refines_spec` relates `write_data_block` to the checksum-free
+     `SState` specification of Spec/BlockWriter.lean; `SState` ↔ `placeBlocks`/`findMatch` (payload lists instead of
+     a byte string with offsets) is not proved;
+ (3) the fragment pass against `Pack.placeTail`: `specPack` keeps the chunks newest first and never replaces, `fStep` follows
+     the hash table (insert replaces an equal key); equal on reachable states by `Sqfs.C08.frag_lookup_unique`, not proved here.
+Proved: the per-block worker rule.  The equality is *exercised* on every run: tools/checks/c02.py compares `packRef`, and
+tools/checks/c17.py compares `specPack`, with the same real code. -/
+
+/-- **`run_eq_specPack_partial`.**  `process_block` on a non-empty data block is `specPack`'s `workData`: the block is a
+hole (nothing stored, `sparse += size`), or it is stored raw / compressed with the checksum `workData` says. -/
+theorem run_eq_specPack_partial (P : Params) (hpos : ∀ x z, P.codec.cmp x = some z → 0 < z.length) (b : Blk)
+    (hne : b.data ≠ []) (hnf : Sqfs.BlockWriter.hasFlag b.flags Consts.blkIsFragment = false)
+    (hnb : Sqfs.BlockWriter.hasFlag b.flags Consts.blkFragmentBlock = false) :
+    match Sqfs.Pack.workData (toPackParams P) (Sqfs.Pack.Flags.ofNat b.flags) b.data with
+    | .sparse n => Sqfs.BlockWriter.hasFlag (processBlock P b).flags Consts.blkIsSparse = true ∧ n = b.data.length ∧
+        (processBlock P b).data = b.data
+    | .stored s => (processBlock P b).flags = (if s.raw then b.flags else b.flags ||| Consts.blkIsCompressed) ∧
+        (processBlock P b).data = s.data ∧ (processBlock P b).chk = s.cksum :=
+  worker_eq_workData P hpos b hne hnf hnb
 
 /-! ### schedules and worker counts: composition with C09 -/
 
@@ -189,6 +227,18 @@ example : (run (serial exP) 3 exFiles).toOption = (run (serial exP) 40 exFiles).
 example : (runProc (serial exP) 3 exFiles).toOption.isSome = true ∧
     (run (serial exP) 3 [⟨32, [1, 2, 3]⟩]).toOption = none := by
   decide +kernel
+
+/-- the hypotheses of `run_eq_specPack_partial` on a compressible block of the instance -/
+example : (∀ x z, exP.codec.cmp x = some z → 0 < z.length) ∧
+    (processBlock exP { flags := 0, data := [7, 7, 7, 7] }).data = [7, 4] ∧
+    Sqfs.Pack.workData (toPackParams exP) (Sqfs.Pack.Flags.ofNat 0) [7, 7, 7, 7] =
+      .stored ⟨false, exP.h [7, 7, 7, 7], [7, 4]⟩ := by
+  refine ⟨?_, by decide +kernel, by decide +kernel⟩
+  intro x z h
+  simp only [exP, exCodec] at h
+  split at h
+  · simp only [Option.some.injEq] at h; subst h; decide
+  · cases h
 
 /-- `RealisedBy` is inhabited: the serial pool itself … -/
 example (n : Nat) : RealisedBy n serialAnsHist := fun _ => Or.inr rfl
